@@ -15,6 +15,8 @@ import (
 	"io"
 	"log/slog"
 	"math/rand"
+	"net/http"
+	"net/http/httptest"
 	"sort"
 	"strconv"
 	"strings"
@@ -23,9 +25,14 @@ import (
 	"time"
 
 	"github.com/ethereum/go-ethereum/common"
+	"github.com/ethereum/go-ethereum/crypto"
 	discoverypb "github.com/primevprotocol/mev-commit/gen/go/discovery/v1"
+	"github.com/primevprotocol/mev-commit/pkg/apiserver"
+	"github.com/primevprotocol/mev-commit/pkg/debugapi"
 	"github.com/primevprotocol/mev-commit/pkg/discovery"
+	mockkeysigner "github.com/primevprotocol/mev-commit/pkg/keysigner/mock"
 	"github.com/primevprotocol/mev-commit/pkg/p2p"
+	"github.com/primevprotocol/mev-commit/pkg/p2p/libp2p"
 	"github.com/primevprotocol/mev-commit/pkg/topology"
 	"google.golang.org/protobuf/proto"
 )
@@ -77,6 +84,7 @@ type c15ObsEv struct {
 	Eff   []c15Eff
 	Views [][]c15Peer
 	Conn  []bool
+	Api   [][]common.Address // GET /topology: connected_peers providers, bidders; nil when the request failed
 }
 
 func c15FromPeer(p p2p.Peer) c15Peer { return c15Peer{p.EthAddress, int(p.Type)} }
@@ -255,6 +263,7 @@ var c15ViewRoles = []int{int(p2p.PeerTypeBootnode), int(p2p.PeerTypeProvider), i
 
 // c15Sys is one wired system under test; next() lets the generator look at the driver's state
 type c15Sys struct {
+	api    http.Handler
 	w      *c15World
 	topo   *topology.Topology
 	disc   *discovery.Discovery
@@ -270,7 +279,62 @@ func c15New(probes []common.Address, slow int) *c15Sys {
 	topo := topology.New(w, logger)
 	disc := discovery.New(&c15Topo{w: w, inner: topo}, w, logger)
 	topo.SetAnnouncer(&c15Tee{w: w, inner: disc})
-	return &c15Sys{w: w, topo: topo, disc: disc, probes: probes, slow: time.Duration(slow)}
+	// the debug API as node.NewNode registers it: on the API server, over the same Topology and
+	// the node's (real) libp2p service
+	srv := apiserver.New("c15", logger)
+	debugapi.RegisterAPI(srv, topo, c15P2P(), logger)
+	return &c15Sys{api: srv.Router(), w: w, topo: topo, disc: disc, probes: probes, slow: time.Duration(slow)}
+}
+
+type c15Registry struct{}
+
+func (c15Registry) CheckProviderRegistered(context.Context, common.Address) bool { return true }
+
+var (
+	c15P2POnce sync.Once
+	c15P2PSvc  *libp2p.Service
+)
+
+// one real libp2p service for the whole run (the debug API handler reads Self and BlockedPeers from it)
+func c15P2P() *libp2p.Service {
+	c15P2POnce.Do(func() {
+		key, err := crypto.GenerateKey()
+		if err != nil {
+			panic(err)
+		}
+		svc, err := libp2p.New(&libp2p.Options{
+			KeySigner:  mockkeysigner.NewMockKeySigner(key, crypto.PubkeyToAddress(key.PublicKey)),
+			Secret:     "c15",
+			ListenPort: 0,
+			ListenAddr: "127.0.0.1",
+			PeerType:   p2p.PeerTypeBootnode,
+			Register:   c15Registry{},
+			Logger:     slog.New(slog.NewTextHandler(io.Discard, nil)),
+		})
+		if err != nil {
+			panic(err)
+		}
+		c15P2PSvc = svc
+	})
+	return c15P2PSvc
+}
+
+func (s *c15Sys) queryAPI() [][]common.Address {
+	rec := httptest.NewRecorder()
+	s.api.ServeHTTP(rec, httptest.NewRequest(http.MethodGet, "/topology", nil))
+	if rec.Code != http.StatusOK {
+		return nil
+	}
+	var resp struct {
+		ConnectedPeers map[string][]common.Address `json:"connected_peers"`
+	}
+	if err := json.Unmarshal(rec.Body.Bytes(), &resp); err != nil {
+		return nil
+	}
+	return [][]common.Address{
+		append([]common.Address{}, resp.ConnectedPeers["providers"]...),
+		append([]common.Address{}, resp.ConnectedPeers["bidders"]...),
+	}
 }
 
 func (s *c15Sys) blockedUnderlays() [][]byte {
@@ -368,6 +432,7 @@ func (s *c15Sys) apply(ev c15Event) {
 	for _, a := range s.probes {
 		o.Conn = append(o.Conn, s.topo.IsConnected(a))
 	}
+	o.Api = s.queryAPI()
 	s.obs = append(s.obs, o)
 }
 
@@ -506,8 +571,16 @@ func c15CoqCase(id int, in c15In, obs []c15ObsEv) string {
 		for _, b := range o.Conn {
 			conn = append(conn, coqBool(b))
 		}
+		var api []string
+		for _, l := range o.Api {
+			var as []string
+			for _, a := range l {
+				as = append(as, c15Addr(a))
+			}
+			api = append(api, "(("+coqList(as)+") : list addr)")
+		}
 		os = append(os, coqApp("mkObs", coqList(eff), c15N.bind("w", "(("+coqList(views)+") : list (list peer))"),
-			c15N.bind("c", "(("+coqList(conn)+") : list bool)")))
+			c15N.bind("c", "(("+coqList(conn)+") : list bool)"), c15N.bind("g", "(("+coqList(api)+") : list (list addr))")))
 	}
 	roles := coqList([]string{coqZ(int64(p2p.PeerTypeBootnode)), coqZ(int64(p2p.PeerTypeProvider)), coqZ(int64(p2p.PeerTypeBidder))})
 	body := coqRecord("id", coqN(uint64(id)), "c_roles", roles, "probes", coqList(pr), "evs", coqList(evs), "obs", coqList(os))
@@ -740,6 +813,11 @@ func c15Exhaustive(depth int, f func(c15In)) {
 func TestVerifC15(t *testing.T) {
 	e := vfOpen(t, 400)
 	defer e.Close()
+	defer func() {
+		if c15P2PSvc != nil {
+			_ = c15P2PSvc.Close()
+		}
+	}()
 	emit := func(class string, in c15In, obs []c15ObsEv) {
 		e.Emit(class, in, obs, func(id int) string { return c15CoqCase(id, in, obs) })
 	}
